@@ -28,6 +28,10 @@ func MonitorFor(prop string) Monitor {
 		return MonC14{}
 	case "C15":
 		return MonC15{}
+	case "C13":
+		return MonC13{}
+	case "C10":
+		return MonMulti{Prop: "C10", Mons: []Monitor{MonC01{}, MonC02{}, MonC05{}}}
 	case "C09":
 		return MonMulti{Prop: "C09", Mons: []Monitor{MonC01{}, MonC02{}, MonC03{}, MonC05{}, MonC06{}, MonC11{}}}
 	case "C08":
@@ -45,6 +49,12 @@ func Registry(prop, tier string) []UniverseDef {
 	}
 	if prop == "C09" {
 		return CompoundRegistry(tier)
+	}
+	if prop == "C10" {
+		return NodeTableRegistry(tier)
+	}
+	if prop == "C13" {
+		return C13Registry(tier)
 	}
 	if prop != "C04" {
 		// a few compound universes take part in every tree-level property
@@ -90,7 +100,7 @@ func FindUniverse(prop, tier, name string) (*Universe, error) {
 }
 
 func ConfigFor(prop, tier string) Config {
-	c := Config{Tier: tier, RawVariants: 4, Poison: true, MaxStates: 400000}
+	c := Config{Tier: tier, RawVariants: 4, Poison: true, Warm: true, MaxStates: 400000}
 	if tier == "thorough" {
 		c.RawVariants = 16
 		c.MaxStates = 3000000
